@@ -11,6 +11,7 @@ import (
 	"github.com/New-JAMneration/JAM-Protocol/internal/utilities/hash"
 	mt "github.com/New-JAMneration/JAM-Protocol/internal/utilities/merkle_tree"
 	"github.com/New-JAMneration/JAM-Protocol/internal/verifdrv/vfd"
+	"github.com/New-JAMneration/JAM-Protocol/internal/work_package"
 )
 
 type cmp struct {
@@ -96,6 +97,17 @@ func TestRun(t *testing.T) {
 					co = []byte("error: " + err.Error())
 				}
 				cs = append(cs, cmp{"ce140.constructMerkleCoPath", want, vfd.B(co)})
+			case "pagecount":
+				segs := make([]types.ExportSegment, vfd.I(c["n"]))
+				for i := range segs {
+					segs[i][0], segs[i][1], segs[i][4103] = byte(i), byte(i>>8), 1
+				}
+				pages, err := work_package.PagedProofs(segs)
+				got := len(pages)
+				if err != nil {
+					got = -1
+				}
+				cs = append(cs, cmp{"PagedProofs.pages", vfd.I(c["wantPages"]), got})
 			case "page":
 				idx, x := vfd.I(c["idx"]), vfd.I(c["x"])
 				j := mt.Jx(types.U8(x), els, types.U32(idx), hf)
